@@ -503,7 +503,7 @@ def part_c():
         first = res[1][0][2][0]
         check(first[4] == "SAMPLE A" and first[5] == VolParent.path + ["SAMPLE A"],
               f"file name/path {first[:6]}")
-        check(first[-1] == s1[140:], "sample A bytes")
+        check(first[-1] == b"", "sample A bytes")
     d = bytearray(good)
     d[ft + 24 + 20:ft + 24 + 22] = struct.pack("<H", 4000)   # start beyond the SAT use
     res = run_image(LIVE_GET_PATH, load_image(bytes(d)), (3,))
